@@ -35,7 +35,7 @@ RULE = ("seeded histories: 2-3 operations (priorities 0..3, all started first, s
         "towards resources somebody else holds (re-entrant and repeated attempts included), the rest release / complete / "
         "abort (more often for operations that are blocked or waited on) / re-start of an ended id / controller.advance at "
         "its own virtual time (phase machinery, in an order unrelated to the start order) / watchdog.execute (priority "
-        "or oldest strategy, optional time limit) / check_and_boost / clock; seeded families: ring, pre-emption, inheritance-then-retry, double wait, "
+        "or oldest strategy, optional time limit) / check_and_boost / clock; seeded families: ring, pre-emption, inheritance-then-retry, double wait, side wait into a dead end, "
         "end-while-blocked-then-restart; after every "
         "step check_deadlock() is compared with a reference wait-for relation recomputed from the history and the real "
         "lock owners; non-trivial = a history in which at least one acquisition was BLOCKED; distinct = distinct "
@@ -52,6 +52,10 @@ ASSUMPTIONS = ["W waits for r iff W is live, W's last attempt on r was BLOCKED a
                "the victim may be minimal by its current (possibly inherited) or by its original priority; ties are free",
                "the victim clauses are judged only when watchdog.execute returns a DEADLOCK event for a cycle that was "
                "reported immediately before the call and that passed the cycle_live clause",
+               "'after the watchdog handles a reported deadlock ... that cycle is gone' is read as: watchdog.execute on such a "
+               "cycle ends at least one of its members (as the DEADLOCK victim or because a time-out took it in the same pass); "
+               "metadata['watchdog_exempt'] exempts from the time-outs only - the statement gives exempt members no special "
+               "standing in victim selection",
                "an operation id may be started again after it ended (never while live); the restarted operation is a fresh "
                "live operation with no waits"]
 EXPECT_PROBES = ("blocked", "preempted", "reentrant", "ref_cycle", "ref_cycle_3", "reported_cycle", "agree_cycle",
@@ -59,7 +63,8 @@ EXPECT_PROBES = ("blocked", "preempted", "reentrant", "ref_cycle", "ref_cycle_3"
                  "abort_while_waiting", "end_while_waited_on", "release_unrelated_while_waited_on",
                  "acquire_while_waiting", "timeout_kill", "complete_while_waiting", "restarted",
                  "restarted_after_ending_blocked", "restarted_after_ending_waited_on", "preempted_while_waiting_for_it",
-                 "advanced", "oldest_judged_with_phase_order_different")
+                 "advanced", "oldest_judged_with_phase_order_different", "exempt_set", "cycle_with_exempt_member",
+                 "cycle_all_members_exempt", "victim_is_exempt_member", "victim_judged_with_exempt_other_member")
 
 OPS = ["A", "B", "C"]
 RES = ["r0", "r1", "r2"]
@@ -140,6 +145,27 @@ def gen(rng, tier, i):
             ops.insert(rng.randrange(3, 6), ["acq", "A", "r1"])
         held = {"r0": "B", "r1": "B"}
         wants.update(["B", "C"])
+        depth = max(depth, len(ops) + 2)
+    elif rng.random() < 0.07 and nres == 3 and nops == 3:
+        # side-wait family: a cycle member first blocks on a resource of a bystander who waits for nobody (a dead end of
+        # the wait-for graph), then on the resource that closes the cycle
+        by_, b_, a_ = rng.sample(OPS, 3)
+        rs = list(RES)
+        rng.shuffle(rs)
+        ops = [["acq", by_, rs[0]], ["acq", b_, rs[1]], ["acq", a_, rs[2]], ["acq", a_, rs[0]], ["acq", a_, rs[1]],
+               ["acq", b_, rs[2]]]
+        if rng.random() < 0.3:
+            ops[3], ops[4] = ops[4], ops[3]
+        if rng.random() < 0.5:
+            for e in pre:
+                if e[0] == "start":
+                    e[2] = 0 if e[1] == by_ else rng.choice([1, 2, 3])
+            prio_of = {e[1]: e[2] for e in pre if e[0] == "start"}
+        if rng.random() < 0.6:
+            ops.append(["wd"])
+        held = {rs[0]: by_, rs[1]: b_, rs[2]: a_}
+        wants.update([a_, b_])
+        waits.update([(a_, by_), (a_, b_), (b_, a_)])
         depth = max(depth, len(ops) + 2)
     elif rng.random() < 0.1 and nres == 3:
         # double-wait family: W waits for two resources of H; H gives one back and then wants something of W
@@ -231,6 +257,25 @@ def gen(rng, tier, i):
     ops.extend(pending)
     if rng.random() < 0.5:
         ops.append(["wd"])
+    if rng.random() < 0.3:
+        # the per-operation watchdog_exempt flag (only meant for the time-outs) on exactly the member a victim strategy
+        # would pick, on everybody, or on somebody else
+        starts = [e for e in pre if e[0] == "start"]
+        pick = rng.choice(["designated", "designated", "all", "other", "random"])
+        if strategy == "oldest":
+            desig = starts[0][1]
+        else:
+            desig = min(starts, key=lambda e: e[2])[1]
+        if pick == "designated":
+            who = [desig]
+        elif pick == "all":
+            who = [e[1] for e in starts]
+        elif pick == "other":
+            who = [e[1] for e in starts if e[1] != desig][:1]
+        else:
+            who = [rng.choice(starts)[1]]
+        j = 0 if rng.random() < 0.7 else rng.randint(0, len(ops))
+        ops[j:j] = [["exempt", o_] for o_ in who]
     if rng.random() < (0.75 if strategy == "oldest" else 0.25):
         # the phase machinery interleaved with the history: some operations move on (G0 -> G1, with `ready` also
         # G1 -> S) at their own times, in an order unrelated to the order in which they were started
@@ -561,6 +606,12 @@ def run(plan, k):
                     k.probe("boost_applied")
             elif name == "check":
                 pass
+            elif name == "exempt":
+                if op[1] not in ref.live:
+                    continue
+                ctxs[op[1]].metadata["watchdog_exempt"] = True      # public per-operation flag read by Watchdog.check
+                k.probe("exempt_set")
+                continue
             elif name in ("adv", "ready"):
                 o = op[1]
                 if o not in ref.live:
@@ -595,6 +646,18 @@ def run(plan, k):
                     end(e.operation_id, "watchdog", True, True)
                 if dl:
                     k.probe("deadlock_handled")
+                if before is not None:
+                    ex = [o for o in before if ctxs[o].metadata.get("watchdog_exempt")]
+                    if ex:
+                        k.probe("cycle_with_exempt_member")
+                        if len(ex) == len(before):
+                            k.probe("cycle_all_members_exempt")
+                    # "after the watchdog handles a reported deadlock ... that cycle is gone": watchdog.execute on a reported,
+                    # real cycle must end at least one member (as DEADLOCK victim, or because a time-out took it first)
+                    if all(o in ref.live for o in before):
+                        k.violation("victim", "reported_deadlock_not_handled", "watchdog",
+                                    f"cycle {before} reported before watchdog.execute; events "
+                                    f"{[(e.operation_id, e.reason.name) for e in events]}; all members still live")
                 if dl and before is not None:
                     k.probe("victim_judged")
                     v = dl[0].operation_id
@@ -605,6 +668,11 @@ def run(plan, k):
                         if strat == "priority":
                             cur_min = min(prios[o] for o in before)
                             org_min = min(snapshot_live[o]["prio0"] for o in before)
+                            if ctxs[v].metadata.get("watchdog_exempt") is None and any(
+                                    ctxs[o_].metadata.get("watchdog_exempt") for o_ in before):
+                                k.probe("victim_judged_with_exempt_other_member")
+                            if ctxs[v].metadata.get("watchdog_exempt"):
+                                k.probe("victim_is_exempt_member")
                             if prios[v] != cur_min and snapshot_live[v]["prio0"] != org_min:
                                 k.violation("victim", "wrong_victim", "priority",
                                             f"victim {v}; current priorities {sorted(prios.items())}, original "
